@@ -778,6 +778,7 @@ func cmdFuzzDec64(args []string) {
 		if *only != 0 && id != *only {
 			continue
 		}
+		markInflight(id, 0, "Decode")
 		r := rand.New(rand.NewSource(*seed*15485863 + int64(id)))
 		src := roaring64.New()
 		for i, n := 0, r.Intn(4); i < n; i++ {
